@@ -132,7 +132,19 @@ func (e *Eng) Load(patterns []string) error {
 	return nil
 }
 
-func (e *Eng) contractFor(name string) *FuncContract { return e.contracts[name] }
+func (e *Eng) contractFor(name string) *FuncContract {
+	if c := e.contracts[name]; c != nil {
+		return c
+	}
+	// an instance of a generic function answers to the contract of the generic function
+	// (only assumed frame contracts make sense there: the body is not verified per instance)
+	if k := strings.Index(name, "["); k > 0 && strings.HasSuffix(name, "]") {
+		if c := e.contracts[name[:k]]; c != nil && c.Assumed {
+			return c
+		}
+	}
+	return nil
+}
 
 // findFunc resolves a contract's function name to its SSA function.
 func (e *Eng) findFunc(fc *FuncContract) *ssa.Function {
@@ -432,7 +444,8 @@ func (e *Eng) verifyFunc(fc *FuncContract, refute bool, unrollK int) (res *FuncR
 		// the bounded counterexample search is best effort: generation itself is time-boxed
 		tr.genDeadline = time.Now().Add(40 * time.Second)
 	}
-	tr.recovering = hasRecover(fn)
+	tr.recDefers = recoverDefers(fn)
+	tr.recovering = len(tr.recDefers) > 0
 	m0 := vc.Fresh("M0", SMem)
 	var a0 *Term
 	if refute {
@@ -693,6 +706,37 @@ func (tr *FnTr) exceptionalExit(fc *FuncContract, fn *ssa.Function) {
 		return
 	}
 	st := State{Reach: tTrue, Locks: vc.Fresh("locks_exc", SMem), Ghost: vc.Fresh("ghost_exc", SMem)}
+	{
+		// the lock counters at the exceptional exit are those of one of the panic points the
+		// recovering defer covers
+		groups := map[string][]*Term{}
+		locksOf := map[string]*Term{}
+		var order []string
+		for _, el := range tr.excLocks {
+			if el.Locks == nil {
+				continue
+			}
+			k := el.Locks.Key()
+			if _, ok := groups[k]; !ok {
+				order = append(order, k)
+				locksOf[k] = el.Locks
+			}
+			groups[k] = append(groups[k], el.Reach)
+		}
+		var alts []*Term
+		for _, k := range order {
+			alts = append(alts, And(Or(groups[k]...), Eq(st.Locks, locksOf[k])))
+		}
+		switch {
+		case len(alts) == 0:
+			st.Reach = tFalse
+		case len(order) == 1:
+			// one lock state at every panic point: no need to say which point it was
+			vc.Assume(Eq(st.Locks, locksOf[order[0]]))
+		default:
+			vc.Assume(Or(alts...))
+		}
+	}
 	st.Alloc = vc.Fresh("alloc_exc", SInt)
 	vc.Assume(Le(tr.entry.Alloc, st.Alloc))
 	if tr.storeChecks {
